@@ -131,7 +131,7 @@ fn check_case(ctx: &Ctx, cfg: &Config, ops: &[Op]) {
 pub fn run(tier: Tier) -> i32 {
     let ctx = Ctx::new("C01", tier, "model_checking");
     ctx.bind_model();
-    ctx.set_rule("case = (protocol name, key set, prologue, payload lengths, transport mode, rng mode); every message, handshake hash and payload-encrypted flag compared with refnoise; non-trivial = the honest session ran to completion (handshake + 8 transport messages) with every step compared; states = distinct cases");
+    ctx.set_rule("case = (protocol name, key set, prologue, payload lengths, transport mode, rng mode, psks given to the builder / through set_psk / given although the name has no psk modifier); every message, handshake hash and payload-encrypted flag compared with refnoise; non-trivial = the honest session ran to completion (handshake + 8 transport messages) with every step compared; states = distinct cases");
     let all = patterns::all_protos();
     ctx.set("names", json!(all.len()));
     // part 1: all 13 344 names, default vector, default backend
@@ -181,6 +181,34 @@ pub fn run(tier: Tier) -> i32 {
         let cfg = cfg_of(p, v, Backend::Default);
         check_case(&ctx, &cfg, &ops_of(p, v));
     });
+    // part 2b: how the PSKs reach the state must not matter. (i) every psk name of a suite with the PSKs left out of
+    // the builder and supplied through HandshakeState::set_psk before the first message; (ii) names WITHOUT a psk
+    // modifier whose builder is nevertheless given a PSK (slot 0 or 1): the specification has no psk token there,
+    // so nothing of it may reach the wire. Bytes, hash and payload-encrypted flag against the reference as always.
+    {
+        let suite = patterns::all_protos_for_suite(refnoise::DhAlg::X25519, refnoise::CipherAlg::AesGcm, refnoise::HashAlg::Sha256);
+        let d = default_var();
+        suite.par_iter().for_each(|p| {
+            let mut cfg = cfg_of(p, &d, Backend::Default);
+            let mut ops = vec![];
+            if p.psks.is_empty() {
+                let slot = p.n_msgs() % 2;
+                cfg.psks[0][slot] = Some(crate::exec::psk_bytes(slot as u8, 3));
+                cfg.psks[1][slot] = Some(crate::exec::psk_bytes(slot as u8, 3));
+            } else {
+                for q in &p.psks {
+                    let loc = usize::from(*q);
+                    cfg.psks[0][loc] = None;
+                    cfg.psks[1][loc] = None;
+                    ops.push(Op::SetPsk { side: Side::I, loc, klen: 32 });
+                    ops.push(Op::SetPsk { side: Side::R, loc, klen: 32 });
+                }
+            }
+            ops.extend(ops_of(p, &d));
+            check_case(&ctx, &cfg, &ops);
+        });
+        ctx.count("psk_supplied_late_or_unused_cases", suite.len() as u64);
+    }
     // part 3 (thorough): pairs of changes on NAMES/suite
     if !ctx.quick() {
         let suite = patterns::all_protos_for_suite(refnoise::DhAlg::X25519, refnoise::CipherAlg::AesGcm, refnoise::HashAlg::Sha512);
